@@ -238,10 +238,55 @@ def client_coding_choice():
     return cases, bad
 
 
+def live_configuration():
+    """History: start the real http server with the owner's list of enabled codings, then change that list in place
+    (what set_used_compression does) and send requests with Accept-Encoding: every response coding must be enabled
+    at the time of the request."""
+    from sdc11073.httpserver.compression import CompressionHandler
+    avail = list(CompressionHandler.available_encodings)
+    cases, bad = 0, []
+    enabled = list(avail)
+    import logging
+    from sdc11073.httpserver.httpserverimpl import HttpServerThreadBase
+    from native.httpharness import DummyComponent
+    import socket
+    thread = HttpServerThreadBase('127.0.0.1', None, enabled, logging.getLogger('verif.http'))
+    thread.start()
+    thread.started_evt.wait(5)
+    thread.dispatcher.register_instance('comp', DummyComponent())
+    try:
+        for step, new in enumerate([list(avail), [], avail[-1:], avail[:1], []]):
+            del enabled[:]
+            enabled.extend(new)
+            for accept in [','.join(avail), avail[0], avail[-1] + ';q=0.5,' + avail[0] + ';q=1']:
+                cases += 1
+                req = (f'GET /comp HTTP/1.1\r\nHost: x\r\nAccept-Encoding: {accept}\r\nConnection: close\r\n\r\n').encode()
+                s = socket.create_connection(('127.0.0.1', thread.server_port), timeout=3)
+                s.sendall(req)
+                data = b''
+                while True:
+                    chunk = s.recv(65536)
+                    if not chunk:
+                        break
+                    data += chunk
+                s.close()
+                head = data.split(b'\r\n\r\n')[0].decode('latin-1').lower()
+                used = [ln.split(':', 1)[1].strip() for ln in head.split('\r\n') if ln.startswith('content-encoding:')]
+                for u in used:
+                    if u not in new:
+                        bad.append({'key': 'coding-not-enabled-at-request-time',
+                                    'detail': f'step {step}: enabled codings {new} (changed in place after the server '
+                                              f'started), Accept-Encoding "{accept}" -> Content-Encoding {u}'})
+    finally:
+        thread.stop()
+    return cases, bad
+
+
 if __name__ == '__main__':
     c = Collector()
     c.run('C17.parse_header', 'B', parse_header_cases, bound='all ordered pairs of 6 tokens x 12 q-forms each + 8 fixed headers vs an independent RFC 9110 reading')
     c.run('C17.chunk_roundtrip', 'B', chunk_roundtrip, bound='11 bodies (0..65537 bytes, 4 MiB in thorough) x 11 chunk sizes: grammar check + de-chunk')
     c.run('C17.coding_roundtrip', 'B', coding_roundtrip, bound='every registered coding x 4 bodies x request/response x plain/chunked; corrupt and unknown codings')
+    c.run('C17.live_configuration', 'B', live_configuration, bound='5 in-place changes of the enabled codings after server start x 3 Accept-Encoding headers')
     c.run('C17.client_coding_choice', 'B', client_coding_choice, bound='7 x 7 request/supported encoding lists')
     c.emit()
